@@ -143,19 +143,25 @@ impl Recorder {
     }
 
     fn identity_inner(&mut self, op: &str) {
+        // the crate's own == between the copy and the original (the properties are stated with it)
+        let mut eq = true;
         match op {
             "clone_swap" => {
                 let c = self.sim.arena.clone();
+                eq = c == self.sim.arena;
                 self.sim.arena = c;
             }
             #[cfg(feature = "it_deser")]
             "round_trip" => {
                 let s = serde_json::to_string(&self.sim.arena).unwrap();
-                self.sim.arena = serde_json::from_str(&s).unwrap();
+                let c: indextree::Arena<u32> = serde_json::from_str(&s).unwrap();
+                // and serialising the copy again gives the same document
+                eq = c == self.sim.arena && serde_json::to_string(&c).unwrap() == s;
+                self.sim.arena = c;
             }
             _ => {}
         }
-        let mut ev = json!({"op": op, "a": 0});
+        let mut ev = json!({"op": op, "a": 0, "eq": eq});
         self.state_fields(&mut ev);
         self.emit(ev);
     }
@@ -316,71 +322,49 @@ impl Recorder {
         }
     }
 
-    /// Puts slot `slot` (which must hold a live node without relatives... any live node) into the
-    /// state it has after `cycles` further remove/new_node cycles WITHOUT running them, by
-    /// rewriting its generation stamp in the serialised arena. Sound only if the injected arena
-    /// equals the really cycled one; `verify` runs the cycles for real and compares with ==.
-    #[cfg(feature = "it_deser")]
-    pub fn inject_generation(&mut self, slot: usize, cycles: u32, verify: bool) -> Result<(), String> {
-        let v: serde_json::Value = serde_json::to_value(&self.sim.arena).map_err(|e| e.to_string())?;
-        let mut v2 = v.clone();
-        let stamp = v2["nodes"][slot - 1]["stamp"].as_i64().ok_or("serialised arena has no nodes[i].stamp")?;
-        let newstamp = stamp + cycles as i64;
-        v2["nodes"][slot - 1]["stamp"] = json!(newstamp);
-        // every link that names this slot carries the stamp too
-        fn fix(x: &mut serde_json::Value, slot: usize, old: i64, new: i64) {
-            match x {
-                serde_json::Value::Object(m) => {
-                    if m.get("index1").and_then(|i| i.as_u64()) == Some(slot as u64) && m.get("stamp").and_then(|s| s.as_i64()) == Some(old) {
-                        m.insert("stamp".into(), json!(new));
-                    }
-                    for (_, y) in m.iter_mut() {
-                        fix(y, slot, old, new);
-                    }
+    /// Runs `cycles` remove/new_node cycles of the node in `slot` (a node without relatives) on the real
+    /// arena WITHOUT logging each of them, then logs one `inject` event that stands for all of them.
+    /// Every id issued on the way is real and stays in the is_removed sample population.
+    pub fn fast_forward(&mut self, slot: usize, cycles: u32) -> Result<(), String> {
+        let val = *self.sim.arena[self.sim.id(slot)].get();
+        // how many cycles go through silently: probe on a clone; stop before anything that the logged
+        // events must show (slot not reused, id reissued, panic)
+        let mut probe = self.sim.arena.clone();
+        let mut pid = self.sim.id(slot);
+        let mut seen: std::collections::HashSet<indextree::NodeId> = self.sim.toks.keys().copied().collect();
+        let mut k = 0u32;
+        while k < cycles {
+            let r = std::panic::catch_unwind(std::panic::AssertUnwindSafe(|| {
+                pid.remove(&mut probe);
+                probe.new_node(val)
+            }));
+            match r {
+                Ok(id) if usize::from(id) == slot && !seen.contains(&id) => {
+                    seen.insert(id);
+                    pid = id;
+                    k += 1;
                 }
-                serde_json::Value::Array(a) => {
-                    for y in a.iter_mut() {
-                        fix(y, slot, old, new);
-                    }
-                }
-                _ => {}
+                _ => break,
             }
         }
-        fix(&mut v2, slot, stamp, newstamp);
-        let injected: indextree::Arena<u32> = serde_json::from_value(v2).map_err(|e| e.to_string())?;
-        let newid = injected.get_node_id_at(std::num::NonZeroUsize::new(slot).unwrap()).ok_or("injected slot is not live")?;
-        if verify {
-            // the real thing: only possible for a node without relatives (remove + new_node + same payload)
-            let mut real = self.sim.arena.clone();
-            let val = *real[self.sim.id(slot)].get();
-            let mut id = self.sim.id(slot);
-            for _ in 0..cycles {
-                id.remove(&mut real);
-                id = real.new_node(val);
-                if usize::from(id) != slot {
-                    return Err("cycling did not reuse the slot".into());
-                }
-            }
-            if real != injected {
-                return Err("injected arena differs from the really cycled arena".into());
-            }
+        let mut id = self.sim.id(slot);
+        for _ in 0..k {
+            id.remove(&mut self.sim.arena);
+            id = self.sim.arena.new_node(val);
+            self.sim.issued.push(id);
+            self.sim.toks.insert(id, self.sim.issued.len() as u32);
+            self.sim.ids[slot - 1] = id;
         }
-        self.sim.arena = injected;
-        // cycles-1 ids were issued and died in between; they have no NodeId here
-        for _ in 0..(cycles - 1) {
-            self.sim.issued.push(self.sim.ids[slot - 1]); // placeholder: the OLD id, dead like them
+        if k > 0 {
+            let mut ev = json!({"op": "inject", "a": slot, "b": k});
+            self.state_fields(&mut ev);
+            self.emit(ev);
         }
-        self.sim.issued.push(newid);
-        self.sim.toks.insert(newid, self.sim.issued.len() as u32);
-        self.sim.ids[slot - 1] = newid;
-        let mut ev = json!({"op": "inject", "a": slot, "b": cycles, "verified": verify});
-        self.state_fields(&mut ev);
-        self.emit(ev);
         Ok(())
     }
 
     /// remove + new_node cycles of one slot, optionally with another slot free at the same time
-    pub fn churn(&mut self, slot: usize, cycles: u32, other_free_every: u32) {
+    pub fn churn(&mut self, slot: usize, cycles: u32, other_free_every: u32, with_copies: bool) {
         // Liveness here is decided by the CALL HISTORY (an id returned by new_node and not yet passed to
         // remove is live for its owner), not by what the arena reports.
         // `extra`: a second node that is freed just before `slot` in some cycles, so that the free list
@@ -410,6 +394,13 @@ impl Recorder {
             }
             self.call(&Call { op: "remove".into(), a: slot, b: 0, v: 0, checked: false, r: vec![] });
             mine = false;
+            if with_copies && i % 5 == 2 {
+                // a removed (possibly exhausted) slot must survive a serde round trip / a clone unchanged
+                if cfg!(feature = "it_deser") {
+                    self.identity("round_trip");
+                }
+                self.identity("clone_swap");
+            }
             // allocate until nothing is reusable any more (at most the two slots just freed)
             for _ in 0..2 {
                 if self.broken || self.sim.drain().is_empty() {
@@ -437,6 +428,8 @@ pub fn weights(mix: &str) -> Vec<(&'static str, u32)> {
         "recycle" => vec![("new", 22), ("append_value", 14), ("move", 16), ("tops", 4), ("fail", 4), ("detach", 3), ("remove", 20), ("remove_subtree", 10), ("set", 3), ("observe", 2), ("round_trip", 1), ("clone_swap", 1)],
         "fail" => vec![("new", 8), ("append_value", 10), ("move", 14), ("tops", 4), ("fail", 44), ("detach", 4), ("remove", 8), ("remove_subtree", 4), ("set", 2), ("observe", 2)],
         "tops" => vec![("new", 10), ("append_value", 8), ("move", 14), ("tops", 34), ("fail", 6), ("detach", 6), ("remove", 12), ("remove_subtree", 5), ("set", 2), ("observe", 3)],
+        // no serde / clone events: identical event sequences under every feature set (C17)
+        "c17" => vec![("new", 14), ("append_value", 10), ("move", 24), ("tops", 8), ("fail", 10), ("detach", 6), ("remove", 12), ("remove_subtree", 6), ("set", 4), ("clear", 1), ("reserve", 2), ("observe", 3)],
         "values" => vec![("new", 12), ("append_value", 10), ("move", 14), ("tops", 4), ("fail", 4), ("detach", 4), ("remove", 10), ("remove_subtree", 5), ("set", 20), ("clear", 1), ("reserve", 6), ("clone_swap", 5), ("round_trip", 5)],
         _ => vec![("new", 12), ("append_value", 10), ("move", 26), ("tops", 8), ("fail", 10), ("detach", 6), ("remove", 10), ("remove_subtree", 5), ("set", 4), ("clear", 1), ("reserve", 2), ("observe", 3), ("clone_swap", 1), ("round_trip", 2)],
     }
@@ -452,6 +445,14 @@ pub fn run(args: &[String]) -> i32 {
     let mix = get("--mix", "mixed");
     let mut r = Recorder::new(&out, seed);
     match mix.as_str() {
+        "churn200" => {
+            // a few hundred recycles of one slot, then ordinary life (used to compare builds, C17)
+            r.reset(0);
+            let d = r.call(&Call { op: "new".into(), a: 0, b: 0, v: 1, checked: false, r: vec![] });
+            r.call(&Call { op: "new".into(), a: 0, b: 0, v: 2, checked: false, r: vec![] });
+            r.churn(d.new, 200 + (seed % 50) as u32, 3, false);
+            r.drive("c17", events, max_slots);
+        }
         "boundary" | "boundary-real" => {
             // C06/C07 at the end of the generation counter of one slot
             let real = mix == "boundary-real";
@@ -462,18 +463,15 @@ pub fn run(args: &[String]) -> i32 {
             r.call(&Call { op: "new".into(), a: 0, b: 0, v: 2, checked: false, r: vec![] });
             let variant = seed % 3;
             if real {
-                r.churn(slot, 32790, if variant == 0 { 0 } else { 4000 + (seed % 7) as u32 });
+                r.churn(slot, 32790, if variant == 0 { 0 } else { 4000 + (seed % 7) as u32 }, true);
                 // the last cycles with another slot free at the same time
             } else {
-                #[cfg(feature = "it_deser")]
-                {
-                    let verify = get("--verify-injection", "0") == "1";
-                    if let Err(e) = r.inject_generation(slot, 32750 + (seed % 11) as u32, verify) {
-                        eprintln!("harness: state injection failed: {}", e);
-                        return 2;
-                    }
+                // stop a few generations before the end of the counter (the cycles are really executed)
+                if let Err(e) = r.fast_forward(slot, 32750 + (seed % 11) as u32) {
+                    eprintln!("harness: fast-forward failed: {}", e);
+                    return 2;
                 }
-                r.churn(slot, 60, match variant { 0 => 0, 1 => 1, _ => 3 });
+                r.churn(slot, 60, match variant { 0 => 0, 1 => 1, _ => 3 }, true);
             }
             // and life goes on afterwards
             r.drive("recycle", 60, 5);
